@@ -70,7 +70,11 @@ func WithMiddleware(middleware Middleware) ServerOption {
 func (s *Server) RegisterRoute(route *Route) error {
 	// Add global middlewares to the route
 	if len(s.middlewares) > 0 {
-		route.Middlewares = append(s.middlewares, route.Middlewares...)
+		// A slice of its own: appending to s.middlewares would write the
+		// route's middlewares into the spare capacity every registration shares.
+		combined := make([]Middleware, 0, len(s.middlewares)+len(route.Middlewares))
+		combined = append(combined, s.middlewares...)
+		route.Middlewares = append(combined, route.Middlewares...)
 	}
 
 	return s.router.RegisterRoute(route)
